@@ -161,6 +161,54 @@ func c18RunModel(x *Exec, in c18Input, policy int) c18Obs {
 	return c18RunModelAfter(x, nil, in, policy)
 }
 
+// c18RunTwo: two Parser values at work at the same time (a program that reads its recipe book and its log through the
+// channel API concurrently): four threads under the scheduler, every interleaving of the two pipelines' channel
+// operations. Each consumer must see what the callback parser reports for its own input.
+func c18RunTwo(x *Exec, ins [2]c18Input, policy int) (obs [2]c18Obs, deadlock bool, panics []string, trace []string) {
+	s := NewSched(x)
+	var kept [2][]*shared.ParserNode
+	for i := 0; i < 2; i++ {
+		i := i
+		p := parser.NewParser(parser.NewDefaultConfig())
+		s.NameChan(p.Nodes, fmt.Sprintf("Nodes%d", i))
+		s.NameChan(p.Errors, fmt.Sprintf("Errors%d", i))
+		s.NameChan(p.Done, fmt.Sprintf("Done%d", i))
+		s.Go(fmt.Sprintf("producer%d", i), func() {
+			p.ParseStream(ins[i].reader())
+			obs[i].ProducerDone = true
+		})
+		s.Go(fmt.Sprintf("consumer%d", i), func() {
+			for {
+				c, v, _ := s.Select(selCase{Ch: p.Nodes}, selCase{Ch: p.Errors}, selCase{Ch: p.Done})
+				switch c {
+				case 0:
+					kept[i] = append(kept[i], v.(*shared.ParserNode))
+				case 1:
+					obs[i].Events = append(obs[i].Events, "error:"+v.(error).Error())
+					if policy == 0 {
+						obs[i].ConsumerDone = true
+						return
+					}
+				case 2:
+					obs[i].Events = append(obs[i].Events, "done")
+					obs[i].ConsumerDone = true
+					return
+				}
+			}
+		})
+	}
+	s.Run()
+	for i := 0; i < 2; i++ {
+		var nodes []string
+		for _, n := range kept[i] {
+			nodes = append(nodes, c18Node(n))
+		}
+		// (errors and done come after the records in every legal observation of this consumer)
+		obs[i].Events = append(nodes, obs[i].Events...)
+	}
+	return obs, s.Deadlock, s.Panics, s.Trace
+}
+
 // c18RunModelAfter: as c18RunModel, but the same Parser value has parsed *first (an input without errors, drained until
 // Done by the same consumer) before; only what the consumer sees of the second parse is recorded.
 func c18RunModelAfter(x *Exec, first *c18Input, in c18Input, policy int) c18Obs {
@@ -368,6 +416,52 @@ func checkC18(w *Worker) {
 		}
 	}
 	w.Explore("schedules", ExploreOpts{ShardDepth: 2}, one)
+	// two parsers at once: every pair of five small inputs, every interleaving of the two pipelines
+	var smalls []c18Input
+	for _, in := range inputs {
+		switch in.Name {
+		case "empty", "1-records", "2-records", "error-first-entry", "three-records-with-notes":
+			smalls = append(smalls, in)
+		}
+	}
+	w.Explore("two-parsers-at-once", ExploreOpts{ShardDepth: 3}, func(x *Exec) {
+		a := smalls[x.Choose(len(smalls), "input:first-input")]
+		b := smalls[x.Choose(len(smalls), "input:second-input")]
+		policy := x.Choose(2, "input:consumer")
+		obs, deadlock, panics, trace := c18RunTwo(x, [2]c18Input{a, b}, policy)
+		x.Obs(strings.Join(obs[0].Events, " | "), strings.Join(obs[1].Events, " | "), fmt.Sprint(deadlock))
+		x.Case(fmt.Sprint(a.Name, b.Name, policy, trace), true)
+		polName := "two-parsers-at-once|" + []string{"stop-at-first-error", "drain-until-done"}[policy]
+		rep := map[string]interface{}{"inputs": []string{a.Name, b.Name}, "schedule": trace}
+		if len(panics) > 0 {
+			x.Violate("C18|"+polName+"|panic-in-producer-or-consumer", fmt.Sprintf("inputs %s and %s, schedule %v: %v", a.Name, b.Name, trace, panics), rep)
+			return
+		}
+		for i, in := range []c18Input{a, b} {
+			refEvents, refErr := c18Reference(in)
+			want := append([]string{}, refEvents...)
+			if refErr != "" {
+				want = append(want, "error:"+refErr)
+				if policy == 1 {
+					want = append(want, "done")
+				}
+			} else {
+				want = append(want, "done")
+			}
+			if !obs[i].ConsumerDone {
+				x.Violate("C18|"+polName+"|consumer-never-terminates", fmt.Sprintf("inputs %s and %s parsed at the same time, schedule %v: consumer %d does not terminate (saw %v)", a.Name, b.Name, trace, i, obs[i].Events), rep)
+				return
+			}
+			if strings.Join(want, " | ") != strings.Join(obs[i].Events, " | ") {
+				x.Violate("C18|"+polName+"|wrong-observation", fmt.Sprintf("inputs %s and %s parsed at the same time, schedule %v\nconsumer %d saw:  %v\ncallback parser: %v", a.Name, b.Name, trace, i, obs[i].Events, want), rep)
+				return
+			}
+			if policy == 1 && !obs[i].ProducerDone {
+				x.Violate("C18|"+polName+"|producer-goroutine-left-blocked", fmt.Sprintf("inputs %s and %s, schedule %v: producer %d did not exit", a.Name, b.Name, trace, i), rep)
+				return
+			}
+		}
+	})
 	// a consumer that uses the callback parser on another (6 KB, partly malformed) input between two receives
 	w.Explore("consumer-parses-between-receives", ExploreOpts{ShardDepth: 2}, func(x *Exec) {
 		c18ConsumerParses = true
